@@ -245,9 +245,13 @@ def cases(tier, seed):
         cls = rng.choice(["idp", "polyampholyte", "polyelectrolyte", "sty_rich", "uniform", "short", "neutral_rich", "titratable"])
         seqs.append(gen.rand_seq(rng, cls, hi=70 if i % 6 else 110))
     seqs[:6] = ["KKKKRRKKKKRRKKKK", "KEKE", "GGSGG", "EKEKGGKKEE", "SGGTYKKEESTY", "EEEEDDDD"]
+    # sequences whose raw delta/delta-max ratio lies in (1, 1.1) (the clamp branch of kappa) or far above 1
+    seqs[6:18] = ["EKKGGKE", "EKGKKGE", "EGGGGGE", "EEGGGGGE", "KKGGGGGK", "KGEEEEGGK", "EGKKKKGGE", "DRKSTRE",
+                  "EEEEEEEEEEEEEEEEEEKG", "KEEEEK", "GKKKKG", "EGKKKEE"]
     for i in range(NHIST[tier]):
         k = rng.choice([1, 1, 2, 3, 4])
-        yield {"seqs": [rng.choice(seqs) for _ in range(k)], "o": rng.randrange(1 << 30)}
+        pool = seqs[:18] if i % 5 == 0 else seqs
+        yield {"seqs": [rng.choice(pool) for _ in range(k)], "o": rng.randrange(1 << 30)}
 
 
 def reference(seq, presites, name, args):
